@@ -253,3 +253,67 @@ def expected(col, kind, value, opts, present=True):
             return UNSPEC
         return all(any(c.match(s) for c in comp) for s in set(nonnull_strings(col)))
     return UNSPEC
+
+
+# ---------------------------------------------------------------------------
+# Discovery (C07): the statistics a column must be reported to have
+# ---------------------------------------------------------------------------
+def fmt_date_value(col, ext):
+    """Text form of a date bound as tdda writes it (str(datetime) / str(date))."""
+    dt, ns = ext
+    if col['kind'] == 'dateobj':
+        return '%04d-%02d-%02d' % (dt.year, dt.month, dt.day)
+    s = '%04d-%02d-%02d %02d:%02d:%02d' % (dt.year, dt.month, dt.day, dt.hour, dt.minute, dt.second)
+    if dt.microsecond:
+        s += '.%06d' % dt.microsecond
+    return s
+
+
+def expected_discovery(col, nrows, max_categories=20):
+    """(expected {kind: value}, unspecified kinds) for one column.  Values are plain Python;
+    date bounds are (datetime-utc, extra_ns) pairs to be compared as instants."""
+    t = tdda_type(col)
+    if t is None:
+        return None, set()
+    fam = F.FAMILY[col['kind']]
+    exp = {'type': t}
+    unspec = set()
+    if nrows == 0:
+        return exp, unspec
+    nnull = sum(1 for v in col['values'] if v is None)
+    if nnull < 2:
+        exp['max_nulls'] = nnull
+    if fam in ('int', 'real', 'bool'):
+        nums = nonnull_numbers(col)
+        if nums:
+            lo, hi = min(nums), max(nums)
+            exp['min'], exp['max'] = lo, hi
+            if lo == 0 and hi == 0:
+                exp['sign'] = 'zero'
+            elif lo > 0:
+                exp['sign'] = 'positive'
+            elif lo >= 0:
+                exp['sign'] = 'non-negative'
+            elif hi < 0:
+                exp['sign'] = 'negative'
+            elif hi <= 0:
+                exp['sign'] = 'non-positive'
+        else:
+            unspec.add('sign')            # all-null numeric field: 'null' sign or nothing
+        vals = nums
+    elif fam == 'date':
+        ds = nonnull_dates(col)
+        if ds:
+            exp['min'], exp['max'] = min(ds), max(ds)
+        vals = ds if col['kind'] != 'dateobj' else nonnull_strings(col)
+    else:
+        ss = nonnull_strings(col)
+        if ss:
+            exp['min_length'] = min(len(s) for s in ss)
+            exp['max_length'] = max(len(s) for s in ss)
+            if len(set(ss)) <= max_categories:
+                exp['allowed_values'] = set(ss)
+        vals = ss
+    if fam != 'real' and len(vals) > 1 and len(set(vals)) == len(vals):
+        exp['no_duplicates'] = True
+    return exp, unspec
